@@ -1,6 +1,7 @@
 package main
 
 import (
+	"fmt"
 	"go/types"
 
 	"golang.org/x/tools/go/ssa"
@@ -48,4 +49,241 @@ func init() {
 	})
 }
 
-var _ = types.Typ
+
+// refWriteParams computes, for every production function, which of its
+// parameters flow into the value argument of ref.Store.Set / SetWithLog (directly or
+// through callees): "calling f with x at position i writes x into a ref".
+type refWriteSummary struct {
+	p      *Program
+	set    map[*types.Func]bool // ref.Store.Set, SetWithLog
+	params map[*ssa.Function]map[int]bool
+}
+
+func newRefWriteSummary(p *Program) (*refWriteSummary, error) {
+	store, err := p.NamedType("pkg/ref.Store")
+	if err != nil {
+		return nil, err
+	}
+	iface, ok := store.Underlying().(*types.Interface)
+	if !ok {
+		return nil, &AnchorError{"pkg/ref.Store is not an interface"}
+	}
+	s := &refWriteSummary{p: p, set: map[*types.Func]bool{}, params: map[*ssa.Function]map[int]bool{}}
+	for i := 0; i < iface.NumMethods(); i++ {
+		m := iface.Method(i)
+		if m.Name() == "Set" || m.Name() == "SetWithLog" {
+			s.set[m] = true
+		}
+	}
+	if len(s.set) != 2 {
+		return nil, &AnchorError{"pkg/ref.Store.Set / SetWithLog"}
+	}
+	fns := p.ProdFuncs()
+	for changed, round := true, 0; changed && round < 6; round++ {
+		changed = false
+		for _, fn := range fns {
+			if len(fn.Params) == 0 {
+				continue
+			}
+			for i, par := range fn.Params {
+				if s.params[fn][i] {
+					continue
+				}
+				fw := forward([]ssa.Value{par}, fwdOpts{noBinOp: true})
+				hit := false
+				eachCall(fn, func(c ssa.CallInstruction) {
+					if hit {
+						return
+					}
+					for _, ai := range s.sumArgs(c) {
+						if ai < len(c.Common().Args) && fw[c.Common().Args[ai]] {
+							hit = true
+						}
+					}
+				})
+				if hit {
+					if s.params[fn] == nil {
+						s.params[fn] = map[int]bool{}
+					}
+					s.params[fn][i] = true
+					changed = true
+				}
+			}
+		}
+	}
+	return s, nil
+}
+
+// sumArgs: indices into c.Common().Args that are written into a ref by this call.
+func (s *refWriteSummary) sumArgs(c ssa.CallInstruction) []int {
+	cc := c.Common()
+	if cc.IsInvoke() {
+		if s.set[cc.Method] {
+			return []int{1}
+		}
+		return nil
+	}
+	callee := cc.StaticCallee()
+	if callee == nil {
+		return nil
+	}
+	var out []int
+	for i := range s.params[callee] {
+		out = append(out, i)
+	}
+	return out
+}
+
+func init() {
+	register(&Rule{
+		ID: "C13-b", Template: "T1 must-traverse (join + error-channel)",
+		Doc: "In a function that launches worker goroutines and writes a table object, objects.SaveTable happens only after (*sync.WaitGroup).Wait and after the error channel was found empty (the ok==false edge of `err, ok := <-errChan`): no table is written while a worker is still running or after one failed.",
+		Min: 1,
+		Run: func(p *Program, r *RuleResult) error {
+			st, err := p.MustFuncs("pkg/objects.SaveTable")
+			if err != nil {
+				return err
+			}
+			fns := p.ProdFuncs()
+			r.Analysed = len(fns)
+			for _, fn := range fns {
+				sinks := callsTo(fn, st)
+				if len(sinks) == 0 {
+					continue
+				}
+				hasGo := false
+				for _, b := range fn.Blocks {
+					for _, in := range b.Instrs {
+						if _, ok := in.(*ssa.Go); ok {
+							hasGo = true
+						}
+					}
+				}
+				if !hasGo {
+					continue
+				}
+				var waits []ssa.CallInstruction
+				eachCall(fn, func(c ssa.CallInstruction) {
+					if f := calleeFunc(c); f != nil && f.FullName() == "(*sync.WaitGroup).Wait" {
+						waits = append(waits, c)
+					}
+				})
+				var okVals []ssa.Value
+				for _, b := range fn.Blocks {
+					for _, in := range b.Instrs {
+						u, ok := in.(*ssa.UnOp)
+						if !ok || u.Op.String() != "<-" || !u.CommaOk {
+							continue
+						}
+						ch, ok := u.X.Type().Underlying().(*types.Chan)
+						if !ok || !isErrorType(ch.Elem()) {
+							continue
+						}
+						for _, ref := range *u.Referrers() {
+							if ex, ok := ref.(*ssa.Extract); ok && ex.Index == 1 {
+								okVals = append(okVals, ex)
+							}
+						}
+					}
+				}
+				for _, s := range sinks {
+					what := "table written only after the workers were joined and the error channel was empty"
+					key := callKey(fn, s)
+					if len(waits) == 0 {
+						r.bad(key, p.Rel(s.Pos()), what, "no (*sync.WaitGroup).Wait in "+funcName(fn))
+						continue
+					}
+					blk := map[ssa.Instruction]bool{}
+					for _, w := range waits {
+						blk[w] = true
+					}
+					if path, reach := reachAfter(fn, nil, s, nil, blk); reach {
+						r.bad(key, p.Rel(s.Pos()), what, fmtPath("SaveTable reachable without passing WaitGroup.Wait", path))
+						continue
+					}
+					cut := mkCut(boolEdges(fn, forward(okVals, fwdOpts{noBinOp: true}), false))
+					if len(cut) == 0 {
+						r.bad(key, p.Rel(s.Pos()), what, "no `err, ok := <-errChan` test in "+funcName(fn))
+						continue
+					}
+					bad := false
+					for _, w := range waits {
+						if path, reach := reachAfter(fn, w, s, cut, nil); reach {
+							r.bad(key, p.Rel(s.Pos()), what, fmtPath("SaveTable reachable after Wait without taking the channel-empty edge", path))
+							bad = true
+							break
+						}
+					}
+					if !bad {
+						r.ok(key, p.Rel(s.Pos()), what)
+					}
+				}
+			}
+			return nil
+		},
+	})
+
+	register(&Rule{
+		ID: "C13-c", Template: "SSA data dependence",
+		Doc: "Ref after commit object: in every production function that calls objects.SaveCommit and writes a ref (ref.Store.Set/SetWithLog directly or through any wrapper whose parameter flows into the written value), the value written is data-dependent on SaveCommit's result, so the ref write cannot be ordered before the commit object exists.",
+		Min: 6,
+		Run: func(p *Program, r *RuleResult) error {
+			sc, err := p.MustFuncs("pkg/objects.SaveCommit")
+			if err != nil {
+				return err
+			}
+			rw, err := newRefWriteSummary(p)
+			if err != nil {
+				return err
+			}
+			fns := p.ProdFuncs()
+			r.Analysed = len(fns)
+			for _, fn := range fns {
+				saves := callsTo(fn, sc)
+				if len(saves) == 0 {
+					continue
+				}
+				var seeds []ssa.Value
+				for _, s := range saves {
+					call, ok := s.(*ssa.Call)
+					if !ok {
+						continue
+					}
+					for _, ref := range *call.Referrers() {
+						if ex, ok := ref.(*ssa.Extract); ok && ex.Index == 0 {
+							seeds = append(seeds, ex)
+						}
+					}
+				}
+				fw := forward(seeds, fwdOpts{noBinOp: true})
+				eachCall(fn, func(c ssa.CallInstruction) {
+					for _, ai := range rw.sumArgs(c) {
+						what := "ref written with the sum returned by SaveCommit"
+						key := callKey(fn, c)
+						arg := c.Common().Args[ai]
+						if fw[arg] {
+							okAll := true
+							for _, sv := range saves {
+								if call, isCall := sv.(*ssa.Call); isCall {
+									if path, reach := reachAfter(fn, call, c, mkCut(successEdges(fn, call)), nil); reach {
+										r.bad(key, p.Rel(c.Pos()), what+" after SaveCommit succeeded", fmtPath("ref write reachable from SaveCommit without passing its error test's success edge", path))
+										okAll = false
+										break
+									}
+								}
+							}
+							if okAll {
+								r.ok(key, p.Rel(c.Pos()), what)
+							}
+						} else {
+							r.bad(key, p.Rel(c.Pos()), what, "the value written into the ref does not derive from the SaveCommit call in "+funcName(fn)+": the ref may be written before (or instead of) the commit object")
+						}
+					}
+				})
+			}
+			return nil
+		},
+	})
+}
+
+func fmtPath(msg string, path []int) string { return fmt.Sprintf("%s (blocks %v)", msg, path) }
